@@ -961,7 +961,7 @@ fn pseudo_start(d: &Msg, m: &Model) -> usize {
 }
 
 pub fn run(ctx: &Ctx, rep: &mut Report, prop: &str) {
-    let n = if ctx.is_miri() { ctx.cases(8, 320) } else { ctx.cases(60_000, 2_000_000) };
+    let n = if ctx.is_miri() { ctx.cases(8, 320) } else { ctx.cases(60_000, 500_000) };
     let prefix = format!("{}:", prop);
     for case in ctx.case_range(n) {
         rep.current_case = case;
